@@ -89,7 +89,7 @@ def build(variants=None, quiet=False):
                                                       "-o", os.path.join(out, "lib_" + s + ".o")])
         for s in CORE_SRCS + [os.path.relpath(w, SIM) for w in WORLD_SRCS]:
             o = os.path.join(out, "h_" + s.replace("/", "_").replace(".c", ".o"))
-            jobs.append([cc, "-std=gnu11", "-Wall", "-Wextra", "-Wno-unused-parameter", "-Wno-misleading-indentation"]
+            jobs.append([cc, "-std=gnu11", "-Wall", "-Wextra", "-Wno-unused-parameter", "-Wno-misleading-indentation", "-Wno-clobbered", "-Wno-int-in-bool-context"]
                         + harf + HASH_RENAME + inc + ["-I", os.path.join(SIM, "core"),
                                                        "-c", os.path.join(SIM, s), "-o", o])
     if jobs:
@@ -141,9 +141,11 @@ class BatchResult:
 
 
 def parse_worker_output(text, variant, res, keep_hashes=False):
-    """Returns index of a crashed run or None."""
+    """Returns (index of a crashed run or None, index to restart from or None)."""
     crashed = None
     last_begin = None
+    restart = None
+    had_viol = False
     for line in text.split("\n"):
         if not line:
             continue
@@ -162,17 +164,23 @@ def parse_worker_output(text, variant, res, keep_hashes=False):
             elif status == "abort":
                 res.aborts += 1
             elif status == "viol":
+                had_viol = True
                 res.viols.append(dict(variant=variant, index=idx, key=rest[0], detail=rest[1], step=int(rest[2]), evhash=f[3]))
             last_begin = None
+        elif line.startswith("RESTART "):
+            restart = int(line.split()[1])
         elif line.startswith("CRASH "):
             f = line.split()
             idx = int(f[1])
+            if had_viol:
+                # an earlier run of this process ended in a violation: its damage may be what crashed this one.
+                # Do not count it; the run is repeated in a fresh process.
+                return None, idx
             sig, step, opn, prop, ctx = f[2], int(f[3]), f[4], f[5], (f[6] if len(f) > 6 else "-")
             where = f[7] if len(f) > 7 else "?"
-            if where == "harness" and sig != "TIMEOUT":
-                res.harness_bugs.append(f"crash in harness code: {line}")
             res.crashes.append(dict(variant=variant, index=idx, key=f"{prop}/crash/{sig}/{opn}/{ctx}",
-                                    detail=f"{sig} during {opn} (step {step}, {where})", step=step, evhash="crash"))
+                                    detail=f"{sig} during {opn} (step {step}, {where})", step=step, evhash="crash",
+                                    in_harness=(where == "harness" and sig != "TIMEOUT"), line=line))
             res.runs += 1
             crashed = idx
             last_begin = None
@@ -188,7 +196,7 @@ def parse_worker_output(text, variant, res, keep_hashes=False):
                                 detail="worker died without a crash line", step=-1, evhash="crash"))
         res.runs += 1
         crashed = last_begin
-    return crashed
+    return crashed, restart
 
 
 CRASH_TOTAL = [0]
@@ -206,7 +214,10 @@ def run_chunk(args):
         cmd = [binary, "run", world, str(mode), str(seed), str(cur), str(hi),
                "--plans", os.path.join(tmpdir, "plans-" + tag), "--states", os.path.join(tmpdir, "states-" + tag)]
         p = subprocess.run(cmd, stdout=subprocess.PIPE, stderr=subprocess.PIPE, text=True, errors="replace")
-        crashed = parse_worker_output(p.stdout, variant, res, keep_hashes)
+        crashed, restart = parse_worker_output(p.stdout, variant, res, keep_hashes)
+        if crashed is None and restart is not None:
+            cur = restart
+            continue
         if crashed is None:
             if p.returncode != 0:
                 res.harness_bugs.append(f"worker exit {p.returncode}: {' '.join(cmd)}\n{p.stdout[-500:]}\n{p.stderr[-500:]}")
@@ -313,7 +324,8 @@ def exec_plans(binary, texts, trace=False):
             if i < len(out):
                 ctx = f[6] if len(f) > 6 else "-"
                 out[i] = dict(status="crash", key=f"{f[5]}/crash/{f[2]}/{f[4]}/{ctx}",
-                              detail=f"{f[2]} during {f[4]} (step {f[3]})", step=int(f[3]), evhash="crash")
+                              detail=f"{f[2]} during {f[4]} (step {f[3]})", step=int(f[3]), evhash="crash",
+                              where=(f[7] if len(f) > 7 else "?"))
     for i in range(len(out)):
         if out[i] is None:
             out[i] = dict(status="lost", key=None, evhash="")
@@ -370,6 +382,29 @@ def shrink(binary, text, key, budget_s=45, max_cands=3000):
                 break
         sched = "sched " + " ".join(toks)
     return plan_text(head, ops, sched), cands
+
+
+def confirm_violation(bins, x, seed):
+    """Gate: the violation must reproduce, identically, in two fresh processes.
+    A crash that does not (wild reads depend on the address-space layout), or a crash that surfaced while harness
+    code was running (a consequence of earlier memory corruption, or a harness bug), is re-judged under the asan
+    variant, which stops at the faulting instruction. Returns (variant, plan text, key) or None."""
+    binary = bins[x["variant"]]
+    text = gen_plan(binary, x["world"], x["mode"], seed, x["index"])
+    g1, _ = exec_plans(binary, [text]); g2, _ = exec_plans(binary, [text])
+    same = g1[0]["key"] == x["key"] and g2[0]["key"] == x["key"] and g1[0]["evhash"] == g2[0]["evhash"] \
+        and (x["evhash"] == "crash" or g1[0]["evhash"] == x["evhash"])
+    if same and not x.get("in_harness"):
+        return x["variant"], text, x["key"]
+    if "asan" in bins and x["variant"] != "asan":
+        a = bins["asan"]
+        atext = gen_plan(a, x["world"], x["mode"], seed, x["index"])
+        if atext == text:
+            a1, _ = exec_plans(a, [text]); a2, _ = exec_plans(a, [text])
+            if a1[0]["key"] and a1[0]["key"] == a2[0]["key"] and a1[0].get("where") != "harness" \
+                    and (a1[0]["status"] == "crash" or a1[0]["evhash"] == a2[0]["evhash"]):
+                return "asan", text, a1[0]["key"]
+    return None
 
 
 # --------------------------------------------------------------- findings
@@ -430,6 +465,8 @@ def do_check(prop, tier, seed, scale=1.0, jobs=NCPU):
         if total.harness_bugs:
             print("HARNESS-BUG:", total.harness_bugs[0])
             return 2
+        if "asan" not in bins:
+            bins.update(build(["asan"], quiet=True))
 
         # ---- violations: group by key, gate, classify, shrink
         by_key = {}
@@ -443,15 +480,22 @@ def do_check(prop, tier, seed, scale=1.0, jobs=NCPU):
                 other_prop[key] = len(xs)
                 continue
             x = xs[0]
-            binary = bins[x["variant"]]
-            text = gen_plan(binary, x["world"], x["mode"], seed, x["index"])
-            # gate: two fresh processes must reproduce the same key (and event hash)
-            g1, _ = exec_plans(binary, [text]); g2, _ = exec_plans(binary, [text])
-            if g1[0]["key"] != key or g2[0]["key"] != key or g1[0]["evhash"] != g2[0]["evhash"] \
-                    or (x["evhash"] != "crash" and g1[0]["evhash"] != x["evhash"]):
+            conf = confirm_violation(bins, x, seed)
+            if conf is None:
                 print(f"HARNESS-NONDETERMINISM property={prop} key={key} run={x['index']} variant={x['variant']} "
-                      f"first={x['evhash']} replays={g1[0]['key']}:{g1[0]['evhash']},{g2[0]['key']}:{g2[0]['evhash']}")
+                      f"first={x['evhash']} detail={x['detail']}: neither the original variant nor the asan variant reproduces it deterministically")
                 return 2
+            cvariant, text, ckey = conf
+            if ckey != key:
+                # the deterministic form of this failure (usually the sanitizer's verdict at the faulting instruction)
+                if ckey.split("/")[0] != prop:
+                    other_prop[ckey] = other_prop.get(ckey, 0) + len(xs)
+                    continue
+                if any(r[0] == ckey for r in reported):
+                    continue
+                key = ckey
+            x = dict(x, variant=cvariant)
+            binary = bins[cvariant]
             kf = match_known(key, known)
             if kf is not None:
                 known_hits.append((kf, len(xs)))
